@@ -4,6 +4,11 @@ manifest is valid at every commit)."""
 import json, os, sys
 
 CHECKS = {
+ "C20": ("exploration",
+         "bounded-exhaustive enumeration of hook configurations x hostile links x media types x entry points through the real UI with a real exec of a dump program",
+         "Hook = dump program + every argument sequence of length <=2 (quick, 94 hooks) / <=3 (thorough, 823) over 9 tokens (placeholders, embedded and repeated placeholders, wrong case, --, empty) plus hooks whose program name is a placeholder; 17 links (spaces, quotes, ;, $(), backticks, leading dashes, text that looks like a placeholder, 4 kB, the path of an executable) x 5 media types x 6 entry points (o, number+Enter for body link and attachment, p, b): exactly one process per key, argv equals the configured argv with exact-match substitution at indices >= 1, stdin carries the link iff no %url argument, the program name is never substituted, the UI returns to normal mode.",
+         "Trusted: /verif/bin/vdump (records argv/stdin); the expected link/media type is what the item's own exported selector returns for a separately fetched copy; UI in pass-through mode over the in-memory peer.",
+         "DESIGN.md §3 C20"),
  "C11": ("model_checking",
          "enumeration of source tuples x explicit-state search over request sequences on the real Splicer against a reference merge",
          "All tuples of up to 2 sources with up to 3 items and 3 sources with up to 2 items (quick, 16 572 tuples) / all tuples of up to 3 sources with up to 3 items (thorough, 621 436), timestamps from {missing,t1,t2,t3} in every order; per tuple a breadth-first search over reference states (items delivered) with request sizes {0,1,2,3,5}, every transition replayed on a fresh Splicer, every continuation asked twice, start offsets 1..3 on the initial feed, and the continuation returned at exhaustion harvested once.",
